@@ -44,7 +44,7 @@ def final_len_classes(scheme, prm):
 class C09(Machine):
     prop = "C09"
     title = "padding iterblocks protocol"
-    runs = (3000, 100000)
+    runs = (8000, 400000)
     components = {
         "real": ["crysp.padding blockiterator, nopadding, Nullpadding, bitpadding, pkcs7, X923, MDpadding, SHApadding, Blakepadding",
                  "crysp.bits Bits/pack"],
